@@ -1,14 +1,30 @@
 from vlib import H
 PROPERTY = 'C24'
 LEVEL = 'model_checking'
-CLAIM = ('wip')
+CLAIM = ('Real cluster_linearize.h code instantiated with bitset_detail::IntBitSet<uint8_t> (DepGraph::AddTransaction/AddDependencies/GetReducedParents/IsAcyclic, ChunkLinearization, ChunkLinearizationInfo, '
+         'PostLinearize) plus CompareChunks (util/feefrac.cpp), executed symbolically on clusters of 2 (quick) and 3 (mostly thorough) transactions with symbolic fees (4-bit signed) and sizes (1..4). '
+         'Oracles written from the definitions: dependency closure by Warshall; feerate diagram = concave hull of the cumulative (size, fee) prefix points, "A at least as good as B" iff hull(A) >= every prefix point of B '
+         '(cross-multiplication, no division); chunk boundaries = prefix points on the hull. Asserted: (closure) for EVERY acyclic dependency matrix (symbolic, acyclic by construction through a symbolic rank permutation) '
+         'ancestors/descendants are the reflexive-transitive closure, GetReducedParents is the transitive reduction, IsAcyclic holds; (chunk) for every permutation, ChunkLinearization/ChunkLinearizationInfo return exactly the hull '
+         'segments (fee, size, transaction set), feerates non-increasing; (post) for every topological input order PostLinearize returns a permutation that is topological, whose diagram is >= the input diagram at every point, '
+         'whose chunks are connected, and (real entries) CompareChunks(ChunkLinearization(out), ChunkLinearization(in)) is greater or equivalent; all Assume()s inside the code are checked (ABORT_ON_FAILED_ASSUME). '
+         'NOT covered (out of reach of this pipeline, see bounds): Linearize / SpanningForestState (SFL) including the optimal flag; clusters above 3 transactions; FixLinearization does not exist at this commit.')
 MODES = {'chunk': 0, 'post': 1, 'improve': 2, 'scratch': 3, 'fix': 4, 'closure': 5}
 def mask(edges): return sum(1 << (4 * a + b) for a, b in edges)
-def e(mode, n, real=0, g=None, tag=''):
-    return ('%s_n%d%s%s' % (mode, n, '_' + tag if tag else '', '_real' if real else ''), '%d, %d, %d, %d' % (MODES[mode], n, real, -1 if g is None else mask(g)))
-quick = [e('chunk', 2, g=[]), e('chunk', 3, g=[]), e('closure', 2), e('closure', 3), e('scratch', 2, g=[], tag='g0'), e('scratch', 2, g=[(0, 1)], tag='g01'), e('post', 2, g=[(0, 1)], tag='g01')]
-HARNESSES = [
-    H('lin', 'lin.cpp', 'h_lin', link=['util/feefrac.cpp'], entries=quick, defines={'ABORT_ON_FAILED_ASSUME': 1, 'VERIF_TALLOC_MAX': 8, 'VERIF_LL2C_INLINE_GEP': 1, 'VERIF_MUL128_NARROW': 12, 'FB': 4, 'SB': 2},
-      unwind=5, unwindset='verif_cttz.0:10,verif_ctpop.0:10,verif_ctlz.0:10', memunwind=200, timeout=300, objbits=10, diff_runs=12,
-      functions=['cluster_linearize.h'], stubs=['rng'], bounds='wip'),
-]
+def e(mode, n, real=0, g=None, tag='', wit=0):
+    return ('%s_n%d%s%s' % (mode, n, '_' + tag if tag else '', '_real' if real else ''), '%d, %d, %d, %d, %d' % (MODES[mode], n, real, -1 if g is None else mask(g), wit))
+DEFS = lambda n: {'ABORT_ON_FAILED_ASSUME': 1, 'VERIF_TALLOC_MAX': n + 1, 'VCAP': n + 1, 'VERIF_LL2C_INLINE_GEP': 1, 'VERIF_MUL128_NARROW': 12, 'FB': 4, 'SB': 2}
+def HL(n, entries, tentries=None):
+    return H('lin%d' % n, 'lin.cpp', 'h_lin', link=['util/feefrac.cpp'], entries=entries, tentries=tentries, backends=['default', 'cadical'], defines=DEFS(n), unwind=n + 2, unwindset='verif_cttz.0:10,verif_ctpop.0:10,verif_ctlz.0:10', memunwind=200, timeout=300, objbits=10, diff_runs=12,
+             functions=['DepGraph<IntBitSet<uint8_t>>::AddTransaction/AddDependencies/GetReducedParents/IsAcyclic/Ancestors/Descendants', 'SetInfo', 'ChunkLinearization', 'ChunkLinearizationInfo', 'PostLinearize', 'CompareChunks (util/feefrac.cpp)', 'FeeFrac / ByRatio comparison operators'],
+             stubs=['std::vector<FeeFrac>/<SetInfo>::_M_realloc_insert: first growth allocates n+1 elements at once, a second growth is asserted not to happen (capacity policy only)',
+                    'typed heap allocations with non-constant count allocate VERIF_TALLOC_MAX=n+1 elements, count asserted <= that (translator option)',
+                    '128-bit products computed from 12-bit magnitudes, operand magnitude asserted < 2^12 (translator option VERIF_MUL128_NARROW)',
+                    'InsecureRandomContext replaced by an unconstrained source (only reachable from SpanningForestState, which no entry calls)'],
+             assumptions=['fees in [-8, 7], sizes in [1, 4]', 'PostLinearize input is a topological permutation (its documented precondition)'],
+             bounds='n=%d transactions; entries %s (thorough adds %s); dependency graph symbolic for closure entries, concrete per entry elsewhere (g01 = 0->1, chain 0->1->2, fork 0->{1,2}, join {0,1}->2); '
+                    'Linearize/SFL: symex of one Linearize call on 2 transactions did not finish in 240 s (every m_tx_data/m_set_info/m_reachable access is a symbolic index into a heap array of structs, Activate/Deactivate are inlined at ~30 call sites with 4 nested set loops each)' % (n, [x[0] for x in entries], [x[0] for x in (tentries or []) if x not in entries]))
+q2 = [e('chunk', 2, g=[]), e('closure', 2), e('post', 2, g=[], tag='g0', wit=1), e('post', 2, g=[(0, 1)], tag='g01'), e('post', 2, g=[(1, 0)], tag='g10'), e('post', 2, real=1, g=[], tag='g0', wit=1)]
+q3 = [e('closure', 3)]
+t3 = q3 + [e('post', 3, g=[(0, 1), (1, 2)], tag='chain'), e('chunk', 3, g=[]), e('post', 3, g=[(0, 2), (1, 2)], tag='join', wit=1)]   # post_n3 fork / g20 / g0: no verdict in 800 s
+HARNESSES = [HL(2, q2), HL(3, q3, t3)]
